@@ -19,7 +19,7 @@ func init() { Registry["C12"] = C12 }
 func C12(p *ir.Program, r *report.R) {
 	c := C{p, r}
 	r.Floor = 45
-	r.Explain = "Decided: (a) Header.Hash covers every exported Header field under its own name (exemption: Recover, see DESIGN) ; (b) block ids are compared whole (BlockID.Equals/PartSetHeader.Equals/BlockID.Key field coverage) ; (c) Block.ValidateBasic ties LastCommitHash/DataHash/EvidenceHash/NumTxs to the content and every mismatch returns an error; the list hashes cover every element in order (split coverage); (d) PartSet.AddPart admits a part only under 0 <= index < total, empty slot and a Merkle proof of part.Hash() at that index under the set's hash; SimpleProof.Verify / computeHashFromAunts reject out-of-range indices and compare with the root; Part.Hash hashes part.Bytes; (e) the proposal block is decoded only from a complete part set, read in index order; ProposalBlockParts is only created from a signature-checked proposal header or a +2/3 block id; fast sync builds the block id from block hash AND part-set header. ADDED after seeded-change testing: every calc*Key builder of the block store is an injective piece sequence (decimal fields separated by a constant non-digit, fixed-width fields free) and no family prefix is a prefix of another, so a stored part is found only under its own (height,index) Rounds 4-5: AddPart checks and inserts in one critical section; block and part set replaced together; BlockID key lossless. Round 6: a Merkle level is combined only while aunts are left and the leaf hash is returned as such only when none is left. NOT decided: collision resistance of Keccak/merkle, equality of reassembled bytes as a value property."
+	r.Explain = "Decided: (a) Header.Hash covers every exported Header field under its own name (exemption: Recover, see DESIGN) ; (b) block ids are compared whole (BlockID.Equals/PartSetHeader.Equals/BlockID.Key field coverage) ; (c) Block.ValidateBasic ties LastCommitHash/DataHash/EvidenceHash/NumTxs to the content and every mismatch returns an error; the list hashes cover every element in order (split coverage); (d) PartSet.AddPart admits a part only under 0 <= index < total, empty slot and a Merkle proof of part.Hash() at that index under the set's hash; SimpleProof.Verify / computeHashFromAunts reject out-of-range indices and compare with the root; Part.Hash hashes part.Bytes; (e) the proposal block is decoded only from a complete part set, read in index order; ProposalBlockParts is only created from a signature-checked proposal header or a +2/3 block id; fast sync builds the block id from block hash AND part-set header. ADDED after seeded-change testing: every calc*Key builder of the block store is an injective piece sequence (decimal fields separated by a constant non-digit, fixed-width fields free) and no family prefix is a prefix of another, so a stored part is found only under its own (height,index) Rounds 4-5: AddPart checks and inserts in one critical section; block and part set replaced together; BlockID key lossless. Round 6: a Merkle level is combined only while aunts are left and the leaf hash is returned as such only when none is left. Round 7: PartSet.HasHeader compares the whole header (Total and Hash). NOT decided: collision resistance of Keccak/merkle, equality of reassembled bytes as a value property."
 	r.Trusted = []string{"crypto.Keccak256, merkle.SimpleHashFromTwoHashes (hash functions)", "libs/ser encoding (C11)"}
 
 	// (a) header hash coverage
